@@ -96,6 +96,11 @@ def isPrefix : Str → Str → Bool
   | _ :: _, [] => false
   | a :: as, b :: bs => a == b && isPrefix as bs
 
+/-- position (in code points) of the first occurrence of `sub` in `s`, or -1 -/
+def strIndex : Str → Str → Nat → Int
+  | [], sub, i => if sub.isEmpty then i else -1
+  | c :: rest, sub, i => if isPrefix sub (c :: rest) then i else strIndex rest sub (i + 1)
+
 /-- pure string/number builtins that simply forward to a library function -/
 def forward (st : St F) (name : String) (xargs : List (XArg F)) (dflt : XArg F) : Res F (Val F) :=
   let (r, st') := callExt ext st name xargs [dflt]
@@ -237,7 +242,7 @@ def callBuiltin (name : Str) (args : List (Val F)) (st : St F) : Option (Res F (
     | _ => gp "upper/lower: assertion" st
   | "index" =>
     match args with
-    | [.str s, .str sub] => forward ext st nm [.str s, .str sub] (.num ops.zero)
+    | [.str s, .str sub] => .ok (.num (ops.ofInt (strIndex s sub 0))) st
     | _ => gp "index: assertion" st
   | "startswith" =>
     match args with
